@@ -23,7 +23,9 @@
       every mix of fragment / id-attribute / uuid mode per resource, one or two directories, single and many,
       unidirectional and 1-1 / 1-n / n-n references, both load orders, every proxy followed; targets by name, unique
       ends as sets without an element twice -- a proxy and its target are one element --, symmetric opposites); every
-      built-in data type incl. the wrapper types EBooleanObject, EIntegerObject, ... ('C09:datatypes').
+      built-in data type incl. the wrapper types EBooleanObject, EIntegerObject, ... ('C09:datatypes'); features flagged
+      volatile / unsettable / changeable=False / transient / derived in many combinations ('C09:feature-flags'): exactly
+      the transient and derived ones are missing after a round trip.
 """
 import json
 import time
@@ -254,6 +256,7 @@ def run(ctx, out):
     X.guarded(out, 'same-named classes in sub-packages', JS.subpackage_scenarios, ctx, out)
     X.guarded(out, 'two files referring to each other', JS.two_file_scenarios, ctx, out)
     X.guarded(out, 'built-in data types', JS.datatype_scenarios, ctx, out)
+    X.guarded(out, 'feature flags', JS.feature_flag_scenarios, ctx, out)
     budget -= min(time.time() - ts, 0.2 * budget)
     model = common.Model()
     mm = X.corr_mm()
@@ -274,7 +277,8 @@ def run(ctx, out):
     traces = st['value_documents'] + st['refload_documents'] + 2 * jst.get('cases', 0)
     scen = out.coverage.get('save_history_json', {}).get('documents_loaded_and_compared', 0) \
         + out.coverage.get('subpackages_json', {}).get('documents', 0) \
-        + 2 * out.coverage.get('two_files_json', {}).get('cases', 0) + out.coverage.get('datatypes_json', {}).get('documents', 0)
+        + 2 * out.coverage.get('two_files_json', {}).get('cases', 0) + out.coverage.get('datatypes_json', {}).get('documents', 0) \
+        + out.coverage.get('feature_flags_json', {}).get('documents', 0)
     out.coverage.update({
         'evaluations': stats['cases'] + traces + scen,
         'scenario_documents': scen,
@@ -309,7 +313,8 @@ def run(ctx, out):
 
 
 SCENARIOS = {'save-history': JS.save_history_scenarios, 'subpackages': JS.subpackage_scenarios,
-             'two-files': JS.two_file_scenarios, 'datatypes': JS.datatype_scenarios}
+             'two-files': JS.two_file_scenarios, 'datatypes': JS.datatype_scenarios,
+             'feature-flags': JS.feature_flag_scenarios}
 
 
 def replay(ctx, rep):
